@@ -145,7 +145,7 @@ impl ClusterActor {
             let Some(event) = event else {
                 debug!("event doesn't exist on this partition");
                 // Local node didn't have the event - this counts as a "not found"
-                metadata.not_found_count += 1;
+                metadata.not_found_count = metadata.not_found_count.saturating_add(1);
 
                 // Check if we've tried majority of replicas
                 if metadata.not_found_count >= required_quorum {
@@ -177,7 +177,7 @@ impl ClusterActor {
             if event.confirmation_count < required_quorum {
                 debug!("event exists but is not confirmed");
                 // Event exists but not confirmed - this counts as a "not found"
-                metadata.not_found_count += 1;
+                metadata.not_found_count = metadata.not_found_count.saturating_add(1);
 
                 // Check if we've tried majority of replicas
                 if metadata.not_found_count >= required_quorum {
@@ -214,7 +214,7 @@ impl ClusterActor {
                     watermark, "event exists but is beyond watermark"
                 );
                 // Event exists but beyond watermark - this counts as a "not found"
-                metadata.not_found_count += 1;
+                metadata.not_found_count = metadata.not_found_count.saturating_add(1);
 
                 // Check if we've tried majority of replicas
                 if metadata.not_found_count >= required_quorum {
@@ -281,7 +281,8 @@ impl ClusterActor {
                 Ok(None) => {
                     // Node returned not found - increment counter and try next if needed
                     let mut updated_metadata = metadata;
-                    updated_metadata.not_found_count += 1;
+                    updated_metadata.not_found_count =
+                        updated_metadata.not_found_count.saturating_add(1);
 
                     if updated_metadata.not_found_count >= required_quorum {
                         debug!(
@@ -357,7 +358,7 @@ impl ClusterActor {
                     }
                     Ok(None) => {
                         // This replica also doesn't have it
-                        metadata.not_found_count += 1;
+                        metadata.not_found_count = metadata.not_found_count.saturating_add(1);
 
                         if metadata.not_found_count >= required_quorum {
                             debug!(
@@ -418,7 +419,7 @@ impl ClusterActor {
                     }
                     Ok(None) => {
                         // This replica doesn't have it - continue the not_found logic
-                        metadata.not_found_count += 1;
+                        metadata.not_found_count = metadata.not_found_count.saturating_add(1);
 
                         if metadata.not_found_count >= required_quorum {
                             reply_sender.send(Ok(None));
